@@ -454,8 +454,6 @@ fn regexy_reqs(t: &mut Tape) -> Vec<ReqSpec> {
 pub fn decode_engine(t: &mut Tape) -> HistCase {
     let cfg = NetCfg { max_rules: 14, max_reqs: 6, opt: OptCfg { allow_modifiers: true, ..Default::default() }, ..Default::default() };
     let mut base = gen::full_case(t, &cfg, 3);
-    // C08 known finding: removeparam rules do not survive (de)serialization; keep them out of histories
-    base.rules.retain(|r| !r.contains("removeparam"));
     for _ in 0..t.pick(8) {
         base.rules.push(regexy_rule(t));
     }
@@ -496,7 +494,6 @@ pub fn check(ctx: &mut Ctx) {
     ctx.assumptions = vec![
         "elapsed time is exercised through discard policies and explicit discards; the wall clock is never consulted by the oracle".into(),
         "add_filter of a $badfilter rule, or of a rule an existing $badfilter targets, is documented as unsupported and skipped (counted)".into(),
-        "removeparam rules are kept out of engine histories (C08 known finding: they are not serialized)".into(),
         "lists with two equal-priority redirect rules naming different resources are skipped (the choice between them is free)".into(),
     ];
     let n = ctx.tier.pick(30_000, 500_000);
